@@ -1,8 +1,9 @@
 (* C01 / C07 / C10 — numerical model of a BLOCK of time-parallel steps (MSSDC / PFASST) on a hierarchy of levels:
    the state of every (step, level) and the four primitive operations the controller composes —
      Sweep p l     one sweep of step p on level l                (sweeper.update_nodes)
-     Recv p l      step p takes the end value of step p-1 on level l as its initial value (send_full + recv_full;
-                   end value = last node: the controller admits only right-end node sets for multi-step runs)
+     Send p l      step p computes its end value on level l (send_full: sweeper.compute_end_point — the last node, or the
+                   quadrature u0 + dt sum_m w_m f_m (+ tau) when the right end is not a node / do_coll_update is set)
+     Recv p l      step p takes the end value step p-1 has SENT on level l as its initial value (recv_full)
      Restrict p l  level l -> l+1 of step p                        (BaseTransfer.restrict)
      Prolong p l   level l+1 -> l of step p                        (BaseTransfer.prolong / prolong_f)
    A schedule is a list of operations; pfasst_iteration is the schedule of ONE iteration of controller_nonMPI with all steps
@@ -20,12 +21,19 @@ Section Block.
   Variable lev : nat -> @level K X.          (* level l (0 = finest) *)
   Variable xf : nat -> @xfer K X.            (* transfer between level l and l+1 *)
   Variable tstart : nat -> K.                (* start time of step p *)
+  Record endp := { erin : bool; edcu : bool; ew : nat -> K }.   (* right_is_node, do_coll_update, coll.weights *)
+  Variable lend : nat -> endp.               (* end-point configuration of level l *)
 
   Record lvst := { su : nat -> V; sf : nat -> nat -> V; stau : nat -> option V;
-                   suold : nat -> V; sfold : nat -> nat -> V; svalid : bool }.
+                   suold : nat -> V; sfold : nat -> nat -> V;
+                   suend : V; ssent : bool;      (* level.uend and whether it has been computed from valid data *)
+                   svalid : bool }.
   Definition bstate := nat -> nat -> lvst.   (* step, level *)
 
-  Inductive op := Sweep (p l : nat) | Recv (p l : nat) | Restrict (p l : nat) | Prolong (p l : nat).
+  Inductive op := Sweep (p l : nat) | Send (p l : nat) | Recv (p l : nat) | Restrict (p l : nat) | Prolong (p l : nat).
+
+  Definition end_value (l : nat) (s : lvst) : V :=
+    end_point kO kadd kmul (lM (lev l)) (ldt (lev l)) (ew (lend l)) (nparts imex) (erin (lend l)) (edcu (lend l)) (su s) (sf s) (stau s).
 
   Definition bupd (B : bstate) (p l : nat) (s : lvst) : bstate :=
     fun p' l' => if Nat.eqb p' p && Nat.eqb l' l then s else B p' l'.
@@ -35,35 +43,42 @@ Section Block.
     | Sweep p l =>
         let s := B p l in
         let r := sweep1 kO kadd kmul ksub keqb (tstart p) imex (lev l) (stau s) (su s, sf s) in
-        bupd B p l {| su := fst r; sf := snd r; stau := stau s; suold := suold s; sfold := sfold s; svalid := svalid s |}
+        bupd B p l {| su := fst r; sf := snd r; stau := stau s; suold := suold s; sfold := sfold s;
+                      suend := suend s; ssent := ssent s; svalid := svalid s |}
+    | Send p l =>
+        let s := B p l in
+        bupd B p l {| su := su s; sf := sf s; stau := stau s; suold := suold s; sfold := sfold s;
+                      suend := end_value l s; ssent := svalid s; svalid := svalid s |}
     | Recv p l =>
         match p with
         | 0 => B
         | S q =>
             let s := B p l in
             let src := B q l in
-            let u0 := su src (lM (lev l)) in
+            let u0 := suend src in
             bupd B p l {| su := upd (su s) 0 u0; sf := upd (sf s) 0 (lfeval (lev l) (tstart p) u0); stau := stau s;
-                          suold := suold s; sfold := sfold s; svalid := svalid s && svalid src |}
+                          suold := suold s; sfold := sfold s; suend := suend s; ssent := ssent s;
+                          svalid := svalid s && (svalid src && ssent src) |}
         end
     | Restrict p l =>
         let s := B p l in
         let G := restrict_to kO kadd kmul ksub (tstart p) imex (xf l) (lev l) (lev (S l)) (stau s) (su s, sf s) in
-        bupd B p (S l) {| su := Gu G; sf := Gf G; stau := Gtau G; suold := Guold G; sfold := Gfold G; svalid := svalid s |}
+        bupd B p (S l) {| su := Gu G; sf := Gf G; stau := Gtau G; suold := Guold G; sfold := Gfold G;
+                          suend := suend (B p (S l)); ssent := false; svalid := svalid s |}
     | Prolong p l =>
         let s := B p l in
         let c := B p (S l) in
         let G' := {| Gu := su c; Gf := sf c; Gtau := stau c; Guold := suold c; Gfold := sfold c |} in
         let r := prolong_from kadd kmul ksub (tstart p) (xf l) (lev l) (lev (S l)) G' (su s, sf s) in
         bupd B p l {| su := fst r; sf := snd r; stau := stau s; suold := suold s; sfold := sfold s;
-                      svalid := svalid s && svalid c |}
+                      suend := suend s; ssent := ssent s; svalid := svalid s && svalid c |}
     end.
 
   Definition run_ops (ops : list op) (B : bstate) : bstate := fold_left do_op ops B.
 
   (* ---------------------------------------------------------------- the controller's schedule *)
   Definition for_steps (P : nat) (f : nat -> list op) : list op := flat_map f (seq 0 P).
-  Definition comm_all (P l : nat) : list op := for_steps P (fun p => [Recv p l]).
+  Definition comm_all (P l : nat) : list op := for_steps P (fun p => [Send p l; Recv p l]).
   Definition sweep_all (P l : nat) : list op := for_steps P (fun p => [Sweep p l]).
   Fixpoint repeat_ops (n : nat) (ops : list op) : list op := match n with 0 => [] | S n' => ops ++ repeat_ops n' ops end.
 
@@ -73,8 +88,8 @@ Section Block.
   Definition it_down_ops (P L : nat) (nsw : nat -> nat) : list op :=
     for_steps P (fun p => [Restrict p 0])
     ++ flat_map (fun l => repeat_ops (nsw l) (comm_all P l ++ sweep_all P l) ++ for_steps P (fun p => [Restrict p l])) (seq 1 (L - 2)).
-  (* it_coarse: steps in order: recv, sweep (Gauss-Seidel on the coarsest level; the send is the end value read by the next recv) *)
-  Definition it_coarse_ops (P L : nat) : list op := for_steps P (fun p => [Recv p (L - 1); Sweep p (L - 1)]).
+  (* it_coarse: steps in order: recv, sweep, send (Gauss-Seidel on the coarsest level) *)
+  Definition it_coarse_ops (P L : nat) : list op := for_steps P (fun p => [Recv p (L - 1); Sweep p (L - 1); Send p (L - 1)]).
   (* it_up: for l = L-1..1: prolong l->l-1; if l-1 > 0: nsweeps[l-1] x (comm, sweeps) *)
   Definition it_up_ops (P L : nat) (nsw : nat -> nat) : list op :=
     flat_map (fun l => for_steps P (fun p => [Prolong p (l - 1)])
